@@ -13,8 +13,10 @@
                     start point for the pieces of an arc;
   * `Synced s p`    inside a sub-path the adapter's `current_position` is the builder's point `p`;
   * `StepOk g s c`  the law of the geometry used at one command: pieces form a `Run` from the
-                    arc's start point, and inside a sub-path that start point is the current
-                    position;
+                    arc's start point, and inside a sub-path, when no connecting line is drawn,
+                    that start point is the current position;
+  * `step_synced`, `run_synced`  for EVERY geometry (no law): `Synced` is kept by every command
+                    (since lyon commit 250152af, repair of C15-arc-zero-sweep-stale-position);
   * `step_connected`, `run_connected`  under these laws, for EVERY command sequence: every edge
                     starts (in the built path) exactly where the adapter means it to start, and
                     `Synced` is kept.
@@ -143,7 +145,8 @@ theorem arc_curve_eq (s : St α) (start : Pt α) (near : Bool) (quads : List (Pt
                   lastCmd := .begin, lastCtrl := lastTo start quads },
          endIfNeeded s ++ [.begin start ()] ++ quadCalls quads)
       else
-        ({ s with cur := lastTo s.cur quads, lastCtrl := lastTo s.cur quads },
+        ({ s with cur := lastTo (if near then start else s.cur) quads,
+                  lastCtrl := lastTo (if near then start else s.cur) quads },
          (if near then [.line start ()] else []) ++ quadCalls quads) := by
   cases hn : s.needMoveTo <;> cases near <;>
     simp [arc, arcCurve, hn, emitQuads_eq, moveTo, endIfNeeded]
@@ -206,11 +209,12 @@ end
 def Synced (s : St α) (p : Option (Pt α)) : Prop := s.needMoveTo = false → p = some s.cur
 
 /-- what one arc output must satisfy at a state with current position `cur`: the pieces form a
-connected run from the arc's start point; inside a sub-path (`inSub`) the start point is the
-current position -/
+connected run from the arc's start point; inside a sub-path (`inSub`), when no connecting line is
+drawn (`near = false`) and there is a piece, the start point is the current position -/
 def OutOk (inSub : Bool) (cur : Pt α) : ArcOutQ α → Prop
   | .skip => True
-  | .curve start _ pieces => (inSub = true → start = cur) ∧ ∃ e, Run (toP start) pieces e
+  | .curve start near pieces =>
+    (inSub = true → near = false → pieces ≠ [] → start = cur) ∧ ∃ e, Run (toP start) pieces e
 
 def SvgOutOk (inSub : Bool) (cur : Pt α) : SvgArcOutQ α → Prop
   | .straight => True
@@ -311,16 +315,22 @@ theorem arc_connected (s : St α) (o : ArcOutQ α) (p : Option (Pt α)) (h : Syn
     simp only [ArcOutQ.erase, arc_curve_eq, arcFroms]
     cases hn : s.needMoveTo
     · have hp := h hn
-      have hst : start = s.cur := hs (by simp [hn])
       subst hp
-      rw [hst] at hr
       simp only [Bool.false_eq_true, if_false, edgeStarts_append, lastPoint_append]
-      have he := edgeStarts_pieces hr
-      rw [ofP_toP] at he
       cases near
       · simp only [Bool.false_eq_true, if_false, edgeStarts, lastPoint, List.nil_append]
-        exact ⟨he, fun _ => lastPoint_quadCalls _ _⟩
-      · simp only [if_true, edgeStarts, lastPoint, List.map_append, List.map_cons, List.map_nil, hst]
+        refine ⟨?_, fun _ => lastPoint_quadCalls _ _⟩
+        cases hq : pieces with
+        | nil => rfl
+        | cons q rest =>
+          have hst : start = s.cur := hs (by simp [hn]) rfl (by simp [hq])
+          rw [hst, hq] at hr
+          have he := edgeStarts_pieces hr
+          rw [ofP_toP] at he
+          exact he
+      · have he := edgeStarts_pieces hr
+        rw [ofP_toP] at he
+        simp only [if_true, edgeStarts, lastPoint, List.map_append, List.map_cons, List.map_nil]
         exact ⟨by simpa using he, fun _ => lastPoint_quadCalls _ _⟩
     · simp only [if_true]
       rw [edgeStarts_append p (endIfNeeded s ++ ([Call.begin start ()] : Calls α)),
@@ -329,6 +339,33 @@ theorem arc_connected (s : St α) (o : ArcOutQ α) (p : Option (Pt α)) (h : Syn
       have he := edgeStarts_pieces hr
       rw [ofP_toP] at he
       exact ⟨he, fun _ => lastPoint_quadCalls _ _⟩
+
+/-- `current_position` stays the builder's current point through `arc`, for EVERY arc output (no
+law of the geometry is needed since lyon commit 250152af) -/
+theorem arc_synced (s : St α) (o : ArcOut α) (p : Option (Pt α)) (h : Synced s p) :
+    Synced (arc s o).1 (lastPoint p (arc s o).2) := by
+  cases o with
+  | skip => exact fun hn => h hn
+  | curve start near quads =>
+    simp only [arc_curve_eq]
+    cases hn : s.needMoveTo
+    · have hp := h hn
+      subst hp
+      cases near
+      · simp only [Bool.false_eq_true, if_false, List.nil_append]
+        exact fun _ => lastPoint_quadCalls _ _
+      · simp only [Bool.false_eq_true, if_false, if_true, lastPoint_append, lastPoint]
+        exact fun _ => lastPoint_quadCalls _ _
+    · simp only [if_true]
+      rw [lastPoint_append p (endIfNeeded s ++ ([Call.begin start ()] : Calls α)),
+        lastPoint_endIfNeeded_begin]
+      exact fun _ => lastPoint_quadCalls _ _
+
+theorem arcTo_synced (s : St α) (to : Pt α) (o : SvgArcOut α) (p : Option (Pt α))
+    (h : Synced s p) : Synced (arcTo s to o).1 (lastPoint p (arcTo s to o).2) := by
+  cases o with
+  | straight => exact (lineTo_connected s to p h).2
+  | arc o => exact arc_synced s o p h
 
 theorem arcTo_connected (s : St α) (to : Pt α) (o : SvgArcOutQ α) (p : Option (Pt α))
     (h : Synced s p) (ho : SvgOutOk (!s.needMoveTo) s.cur o) :
@@ -383,6 +420,41 @@ theorem run_connected (g : GeoQ α ρ) (cmds : List (Cmd α ρ)) (s : St α) (p 
     refine ⟨?_, ?_⟩
     · simp only [run, runFroms, edgeStarts_append, List.map_append, e1, e2]
     · simpa only [run, lastPoint_append] using s2
+
+/-- **one command, any geometry**: afterwards the adapter's `current_position` is the wrapped
+builder's current point whenever a sub-path is open -/
+theorem step_synced (g : Geo α ρ) (s : St α) (c : Cmd α ρ) (p : Option (Pt α)) (h : Synced s p) :
+    Synced (step g s c).1 (lastPoint p (step g s c).2) := by
+  cases c with
+  | moveTo to => exact (moveTo_connected s to p).2
+  | relMoveTo v => exact (moveTo_connected s _ p).2
+  | close => exact (close_connected s p).2
+  | lineTo to => exact (lineTo_connected s to p h).2
+  | relLineTo v => exact (lineTo_connected s _ p h).2
+  | hLineTo x => exact (lineTo_connected s _ p h).2
+  | relHLineTo x => exact (lineTo_connected s _ p h).2
+  | vLineTo x => exact (lineTo_connected s _ p h).2
+  | relVLineTo x => exact (lineTo_connected s _ p h).2
+  | quadTo c to => exact (quadTo_connected s _ to p h).2
+  | relQuadTo c v => exact (quadTo_connected s _ _ p h).2
+  | smoothQuadTo to => exact (quadTo_connected s _ to p h).2
+  | smoothRelQuadTo v => exact (quadTo_connected s _ _ p h).2
+  | cubicTo c1 c2 to => exact (cubicTo_connected s _ _ to p h).2
+  | relCubicTo c1 c2 v => exact (cubicTo_connected s _ _ _ p h).2
+  | smoothCubicTo c2 to => exact (cubicTo_connected s _ _ to p h).2
+  | smoothRelCubicTo c2 v => exact (cubicTo_connected s _ _ _ p h).2
+  | arcTo r to => exact arcTo_synced s to _ p h
+  | relArcTo r v => exact arcTo_synced s _ _ p h
+  | arc r => exact arc_synced s _ p h
+
+/-- **every command sequence, any geometry** -/
+theorem run_synced (g : Geo α ρ) (cmds : List (Cmd α ρ)) (s : St α) (p : Option (Pt α))
+    (h : Synced s p) : Synced (run g s cmds).1 (lastPoint p (run g s cmds).2) := by
+  induction cmds generalizing s p with
+  | nil => exact h
+  | cons c r ih =>
+    have s2 := ih _ _ (step_synced g s c p h)
+    simpa only [run, lastPoint_append] using s2
 
 /-- sequences without the centre-form `arc` need the law for `arc_to` only -/
 def NoCenterArc : List (Cmd α ρ) → Prop
